@@ -1,7 +1,7 @@
 //! Templates: MatMulAddFusion, MatMulScaleFusion, MatMulIntegerToFloatFusion,
 //! ConvIntegerToFloatFusion, ConvAddFusion.
 
-use crate::c01::{Built, Template, ax};
+use crate::c01::{Built, Template, ax, ax2};
 use crate::patterns::*;
 use crate::prog::{AttrV, Dt};
 
@@ -78,7 +78,7 @@ fn matmul_scale(_thorough: bool) -> Template {
     let axes = vec![
         ax("scale position", 5, false),
         ax("scale op", 2, false),
-        ax("const shape", CS_N, true),
+        ax2("const shape", CS_N),
         ax("operand order", 2, true),
         ax("const value", 3, true),
         ax("lhs shape", 2, false),
